@@ -136,6 +136,29 @@ package knxnet
 //@ func (info *DeviceInformationBlock) Pack(buffer []byte)
 //@   requires len(info.HardwareAddr) == 6
 
+//@ func (res SearchRes) Size() (size uint)
+//@   requires len(res.DescriptionB.DeviceHardware.HardwareAddr) == 6
+
+//@ func (res *SearchRes) Pack(buffer []byte)
+//@   requires len(res.DescriptionB.DeviceHardware.HardwareAddr) == 6 && len(res.DescriptionB.SupportedServices.Families) <= 5
+
+//@ func (res DescriptionRes) Size() (size uint)
+//@   requires len(res.DeviceHardware.HardwareAddr) == 6
+
+//@ func (res *DescriptionRes) Pack(buffer []byte)
+//@   requires len(res.DeviceHardware.HardwareAddr) == 6 && len(res.SupportedServices.Families) <= 5
+
+//@ func (f *ServiceFamily) Pack(buffer []byte)
+//@   ensures [layout] buffer[0] == byte(f.Type) && buffer[1] == f.Version
+
+
+//@ func (sdib *SupportedServicesDIB) Pack(buffer []byte)
+//@   -- BOUNDED: the loop over Families is unrolled; the proof covers at most 5 families
+//@   -- (a quantified loop invariant for the byte layout did not discharge on any solver)
+//@   requires len(sdib.Families) <= 5
+//@   ensures [layout] buffer[0] == byte(2 + 2*len(sdib.Families)) && buffer[1] == byte(sdib.Type)
+//@   loop 0 unroll 6
+
 //@ func Size(service ServicePackable) (size uint)
 //@   inline
 
@@ -144,6 +167,9 @@ package knxnet
 //@   encoder
 //@   requires srv != nil && (typeis(srv, *TunnelReq) ==> cemi.validMsg(srv.(*TunnelReq).Payload)) && (typeis(srv, *RoutingInd) ==> cemi.validMsg(srv.(*RoutingInd).Payload))
 //@   requires typeis(srv, *DeviceInformationBlock) ==> len(srv.(*DeviceInformationBlock).HardwareAddr) == 6
+//@   requires typeis(srv, *SearchRes) ==> len(srv.(*SearchRes).DescriptionB.DeviceHardware.HardwareAddr) == 6 && len(srv.(*SearchRes).DescriptionB.SupportedServices.Families) <= 5
+//@   requires typeis(srv, *DescriptionRes) ==> len(srv.(*DescriptionRes).DeviceHardware.HardwareAddr) == 6 && len(srv.(*DescriptionRes).SupportedServices.Families) <= 5
+//@   requires typeis(srv, *SupportedServicesDIB) ==> len(srv.(*SupportedServicesDIB).Families) <= 5
 //@   requires srv.Size() <= 65529 && uint(len(buffer)) >= 6 + srv.Size()
 //@   requires sepdeep(srv, buffer)
 //@   ensures [header] buffer[0] == 6 && buffer[1] == 16
@@ -156,6 +182,9 @@ package knxnet
 //@   props C15
 //@   requires srv != nil && (typeis(srv, *TunnelReq) ==> cemi.validMsg(srv.(*TunnelReq).Payload)) && (typeis(srv, *RoutingInd) ==> cemi.validMsg(srv.(*RoutingInd).Payload))
 //@   requires typeis(srv, *DeviceInformationBlock) ==> len(srv.(*DeviceInformationBlock).HardwareAddr) == 6
+//@   requires typeis(srv, *SearchRes) ==> len(srv.(*SearchRes).DescriptionB.DeviceHardware.HardwareAddr) == 6 && len(srv.(*SearchRes).DescriptionB.SupportedServices.Families) <= 5
+//@   requires typeis(srv, *DescriptionRes) ==> len(srv.(*DescriptionRes).DeviceHardware.HardwareAddr) == 6 && len(srv.(*DescriptionRes).SupportedServices.Families) <= 5
+//@   requires typeis(srv, *SupportedServicesDIB) ==> len(srv.(*SupportedServicesDIB).Families) <= 5
 //@   requires srv.Size() <= 65529
 //@   ensures [datagram] uint(len(buffer)) == srv.Size() + 6 && fresh(buffer)
 //@   ensures [length] uint(buffer[4])<<8 | uint(buffer[5]) == uint(len(buffer))
